@@ -22,7 +22,7 @@ CONSTANTS
   MfsVals <- Absent
   RstCodes = {8}
   CLs <- ClOne
-  HOps = {"read", "ret"}
+  HOps = {"read", "ret", "closebody"}
   ReadLens = {1, 3}
   WriteLens = {1}
   N400C = 1
